@@ -85,6 +85,8 @@ def build(ld, prog, fns=None, stage_prefix='s', hook=None):
         # ---- the real operation
         if k == 'map':
             ds = ds.map(fns.fn(op[1], stage))
+        elif k == 'mapfail':
+            ds = ds.map(fns.raiser(op[1], op[2], stage))
         elif k == 'parmap':
             ds = ds.map(fns.fn(op[1], stage), num_workers=op[2], buffer_size=op[3],
                         backend='t')
